@@ -15,7 +15,8 @@
 (***************************************************************************)
 EXTENDS Naturals, Sequences, FiniteSets, TLC
 
-CONSTANTS Slots, Folders, Contents, MaxOps, Deviations
+CONSTANTS Slots, Folders, Contents, MaxOps, Deviations,
+          Att   \* file secrets that carry a second external file as a custom field (an attachment)
 
 Editor == "d1"
 Reader == "d2"
@@ -26,6 +27,13 @@ Blob(f, s, c) == [f |-> f, s |-> s, c |-> c]
 Create(b) == [k |-> "create", b |-> b, to |-> "-"]
 Move(b, g) == [k |-> "move", b |-> b, to |-> g]
 Delete(b) == [k |-> "delete", b |-> b, to |-> "-"]
+
+(* the blobs a file secret owns: its content and, for the secrets in Att,  *)
+(* the attachment (content token AttC), which an update of the content     *)
+(* keeps                                                                   *)
+AttC == "t"
+BlobsOf(f, s, c) == <<Blob(f, s, c)>> \o (IF s \in Att THEN <<Blob(f, s, AttC)>> ELSE <<>>)
+ToSet(q) == {q[i] : i \in 1..Len(q)}
 
 (* FileReducer *)
 RECURSIVE Reduce(_)
@@ -74,11 +82,13 @@ Edit(events, newBlobs, ops, op) ==
 CreateFile(s, f, c) ==
   /\ slot[s] = None /\ f \in folders
   /\ slot' = [slot EXCEPT ![s] = [f |-> f, c |-> c]]
-  /\ Edit(<<Create(Blob(f, s, c))>>, blobs[Editor] \cup {Blob(f, s, c)},
-          <<<<"upload", Blob(f, s, c)>>>>, <<"CreateFile", s, f, c>>)
+  /\ LET bs == BlobsOf(f, s, c)
+     IN Edit([i \in 1..Len(bs) |-> Create(bs[i])], blobs[Editor] \cup ToSet(bs),
+             [i \in 1..Len(bs) |-> <<"upload", bs[i]>>], <<"CreateFile", s, f, c>>)
   /\ UNCHANGED <<srvLog, srvBlobs, folders, dl, online>>
 
-(* new content: the old blob is deleted, the new one created *)
+(* new content: the old blob is deleted, the new one created; the         *)
+(* attachment of the secret, if any, stays                                *)
 UpdateFile(s, c) ==
   /\ slot[s] # None /\ slot[s].c # c
   /\ LET old == Blob(slot[s].f, s, slot[s].c)
@@ -90,18 +100,19 @@ UpdateFile(s, c) ==
 
 MoveFile(s, g) ==
   /\ slot[s] # None /\ g \in folders /\ slot[s].f # g
-  /\ LET old == Blob(slot[s].f, s, slot[s].c)
-         new == Blob(g, s, slot[s].c)
+  /\ LET olds == BlobsOf(slot[s].f, s, slot[s].c)
+         news == BlobsOf(g, s, slot[s].c)
      IN /\ slot' = [slot EXCEPT ![s].f = g]
-        /\ Edit(<<Move(old, g)>>, (blobs[Editor] \ {old}) \cup {new},
-                <<<<"move", old, g>>>>, <<"MoveFile", s, g>>)
+        /\ Edit([i \in 1..Len(olds) |-> Move(olds[i], g)], (blobs[Editor] \ ToSet(olds)) \cup ToSet(news),
+                [i \in 1..Len(olds) |-> <<"move", olds[i], g>>], <<"MoveFile", s, g>>)
   /\ UNCHANGED <<srvLog, srvBlobs, folders, dl, online>>
 
 DeleteSecret(s) ==
   /\ slot[s] # None
-  /\ LET old == Blob(slot[s].f, s, slot[s].c)
+  /\ LET olds == BlobsOf(slot[s].f, s, slot[s].c)
      IN /\ slot' = [slot EXCEPT ![s] = None]
-        /\ Edit(<<Delete(old)>>, blobs[Editor] \ {old}, <<<<"delete", old>>>>, <<"DeleteSecret", s>>)
+        /\ Edit([i \in 1..Len(olds) |-> Delete(olds[i])], blobs[Editor] \ ToSet(olds),
+                [i \in 1..Len(olds) |-> <<"delete", olds[i]>>], <<"DeleteSecret", s>>)
   /\ UNCHANGED <<srvLog, srvBlobs, folders, dl, online>>
 
 RECURSIVE DelEvents(_)
